@@ -81,6 +81,10 @@ fn main() {
             let line = if kind == "RUN" { format!("RUN h{src} h h 1000000 - -") } else { format!("{kind} h{src}") };
             println!("{}", d.ask(&line));
         }
+        Some("replay") => {
+            let driver = arg_after(&args, "--driver").expect("--driver");
+            std::process::exit(engine::replay(&args[2], &driver));
+        }
         Some("prop") => {
             let start = std::time::Instant::now();
             let ctx = props::Ctx {
